@@ -72,6 +72,19 @@ Theorem C10_isolation : forall c p sv,
 Proof. exact isolation. Qed.
 Print Assumptions C10_isolation.
 
+(* ... and if moreover no receive answer is a re-raised code (so: any mix of data, would-block,
+   EOF and handled connection-level faults on any of the connections), nobody is removed:
+   the server keeps exactly the connections it had (plus the handshakes completed in this
+   pass), each in the state its own answers lead to (cutoff where C10_*_fault_marks_cutoff
+   says so). *)
+Theorem C10_server_no_escape : forall c p sv,
+  (forall ca, no_raise_send c (send_of (p_io p) ca) = true) ->
+  (forall ca, forallb (no_raise_recv c) (recvs_of (p_io p) ca) = true) ->
+  snd (service c p sv) = Ok tt /\
+  ixes (fst (service c p sv)) = map (served c (p_io p)) (present p sv).
+Proof. exact server_no_escape. Qed.
+Print Assumptions C10_server_no_escape.
+
 (* Pending TLS handshakes on the server: never raise, each decided by its own answer. *)
 Theorem C10_server_handshakes : forall hs l,
   let '(pend, conn, ab) := service_cxes hs l in
